@@ -227,4 +227,23 @@ def ME.flatList : List ME → Bool
   | e :: es => e.flat && ME.flatList es
 end
 
+mutual
+/-- the parser's static arity rule (`parse_block_function`: `abs` takes exactly one expression),
+checked on the whole text before anything is expanded -/
+def ME.arityOk : ME → Bool
+  | .blk k es => (match k with | .abs => es.length == 1 | _ => true) && ME.arityOkList es
+  | .bin _ a b => a.arityOk && b.arityOk
+  | .agg _ _ body => body.arityOk
+  | _ => true
+def ME.arityOkList : List ME → Bool
+  | [] => true
+  | e :: es => e.arityOk && ME.arityOkList es
+end
+
+/-- parse (arity rule) then expand in the empty environment -/
+def expandChecked {α : Type} [Arith α] (e : ME) : Except IErr (Exp α) :=
+  if e.arityOk then expand [] e else .error .arity
+def unrollChecked (e : ME) : Except IErr ME :=
+  if e.arityOk then unroll [] e else .error .arity
+
 end Rooc.Pre
